@@ -96,8 +96,9 @@ where
     blocking_active: bool,
     // for internal signaling: if set, specifies the target machines to signal
     signal_pending: Option<SignalTarget>,
-    // only allow each counter to be zeroed once per trigger_events call
-    counter_zeroed_once: (bool, bool),
+    // only allow each counter of each machine to be zeroed once per
+    // trigger_events call
+    counter_zeroed_once: Vec<(bool, bool)>,
     framework_start: T,
 }
 
@@ -150,7 +151,8 @@ where
             });
         }
 
-        let actions = vec![None; machines.as_ref().len()];
+        let num_machines = machines.as_ref().len();
+        let actions = vec![None; num_machines];
 
         // take ownership of rng before using it below to sample limits
         let mut s = Self {
@@ -168,7 +170,7 @@ where
             padding_sent_packets: 0,
             normal_sent_packets: 0,
             signal_pending: None,
-            counter_zeroed_once: (false, false),
+            counter_zeroed_once: vec![(false, false); num_machines],
         };
 
         for (runtime, machine) in s.runtime.iter_mut().zip(s.machines.as_ref().iter()) {
@@ -246,7 +248,7 @@ where
         self.actions.fill(None);
 
         // reset flags for zeroed counters (allowed to zero once per call)
-        self.counter_zeroed_once = (false, false);
+        self.counter_zeroed_once.fill((false, false));
 
         // Process all events: note that each event may lead to up to one action
         // per machine, but that future events may replace those actions. Under
@@ -533,9 +535,9 @@ where
                 }
             }
 
-            if old_value_a != 0 && *updated_value_a == 0 && !self.counter_zeroed_once.0 {
+            if old_value_a != 0 && *updated_value_a == 0 && !self.counter_zeroed_once[mi].0 {
                 any_counter_zeroed = true;
-                self.counter_zeroed_once.0 = true;
+                self.counter_zeroed_once[mi].0 = true;
             }
         }
 
@@ -559,9 +561,9 @@ where
                 }
             }
 
-            if old_value_b != 0 && *updated_value_b == 0 && !self.counter_zeroed_once.1 {
+            if old_value_b != 0 && *updated_value_b == 0 && !self.counter_zeroed_once[mi].1 {
                 any_counter_zeroed = true;
-                self.counter_zeroed_once.1 = true;
+                self.counter_zeroed_once[mi].1 = true;
             }
         }
 
